@@ -3,10 +3,10 @@
 SPEC = {
     "pkg": "c08",
     "tests": [
-        {"name": "TestBounds", "quick": 1600, "thorough": 64000, "shards_quick": 8, "shards_thorough": 16, "timeout": 2400},
+        {"name": "TestBounds", "quick": 2000, "thorough": 64000, "shards_quick": 8, "shards_thorough": 16, "timeout": 2400},
     ],
     "rule": ("rapid-generated cells of the matrix provider kind {uri, uripost, raw, http/json lines, http/json array, grpc/json, "
-             "http/scenario, grpc/scenario, generic json} x preload on/off (HTTP kinds) x limit 0..2E+1 x passes 0..3 x entries 1..5 x "
+             "http/scenario, grpc/scenario, generic json (drawn three times as often as each of the others)} x preload on/off (HTTP kinds) x limit 0..2E+1 x passes 0..3 x entries 1..5 x "
              "1-4 consumers x {drained directly, run inside the real engine with a counting gun}; providers are built through "
              "config.DecodeAndValidate on a mem fs. Unbounded cells (no limit, no passes) are cancelled 0-20 ms after the consumers took their last ammo, so that the provider has filled "
              "its queue and is parked on the hand-over when the cancel arrives (generic json provider also with ammo-queue-size 1/4/64). "
@@ -25,6 +25,13 @@ SPEC = {
              "grpc/json get entries of 70-160 KiB (above bufio.MaxScanTokenSize, the documented default of maxammosize) in two fifths, always with maxammosize "
              "256 KiB-4 MiB (class entries_over_64k; entries_over_64k_read_again = the bounds make the provider read that entry more than once); "
              "maxammosize (4 KiB with tiny entries, 128 KiB, 1 MiB) is also set in 40 % of the other cells of the kinds that accept it. "
+             "The generic json provider takes its data from one of six sources: the three a config can name - `source: {type: file}`, `{type: inline, data: ...}`, "
+             "`{type: stdin}` (os.Stdin is a regular temp file while the config is decoded, as with `pandora conf.yaml < ammo`) - and the three a custom pandora hands to "
+             "provider.NewJSONProvider itself: datasource.NewReader over a strings.Reader, over an open file, and datasource.NewString; all other dimensions (bounds, consumers, "
+             "engine, queue size, live / late consumers, broken tail) are drawn independently of it, and all of these sources can be re-read from their start, so the same bound "
+             "formula is asserted (classes json/source_<s> and json/source_<s>/read_again = the bounds need more than one pass over the data: passes >= 2, limit > entries, or "
+             "no bound at all + cancel; split into read_again_passes_only / _to_limit / _unbounded). Pipes (not seekable: documented 'read only once') are not generated. "
+             "(Floors of classes that belong to the other kinds were rescaled by 9/11 when the json kind got its triple weight.) "
              "Non-trivial = a bound is hit (X finite) and the cell is not plain streaming uri, or chosencases matches nothing; "
              "distinct = hash of the case. Every kind x bound-combination cell must occur (required classes)."),
     "required_classes": ['TestBounds/uri/limit_only', 'TestBounds/uri/passes_only', 'TestBounds/uri/both', 'TestBounds/uri/none', 'TestBounds/uripost/limit_only', 'TestBounds/uripost/passes_only', 'TestBounds/uripost/both', 'TestBounds/uripost/none', 'TestBounds/raw/limit_only', 'TestBounds/raw/passes_only', 'TestBounds/raw/both', 'TestBounds/raw/none', 'TestBounds/jsonline/limit_only', 'TestBounds/jsonline/passes_only', 'TestBounds/jsonline/both', 'TestBounds/jsonline/none', 'TestBounds/jsonarray/limit_only', 'TestBounds/jsonarray/passes_only', 'TestBounds/jsonarray/both', 'TestBounds/jsonarray/none', 'TestBounds/grpc/json/limit_only', 'TestBounds/grpc/json/passes_only', 'TestBounds/grpc/json/both', 'TestBounds/grpc/json/none', 'TestBounds/http/scenario/limit_only', 'TestBounds/http/scenario/passes_only', 'TestBounds/http/scenario/both', 'TestBounds/http/scenario/none', 'TestBounds/grpc/scenario/limit_only', 'TestBounds/grpc/scenario/passes_only', 'TestBounds/grpc/scenario/both', 'TestBounds/grpc/scenario/none', 'TestBounds/json/limit_only', 'TestBounds/json/passes_only', 'TestBounds/json/both', 'TestBounds/json/none',
@@ -32,17 +39,21 @@ SPEC = {
                          'TestBounds/jsonline/cancelled_while_scanning', 'TestBounds/jsonarray/cancelled_while_scanning',
                          'TestBounds/grpc/json/chosencases_match_nothing',
                          'TestBounds/jsonline/entries_over_64k_read_again', 'TestBounds/jsonarray/entries_over_64k_read_again',
-                         'TestBounds/grpc/json/entries_over_64k_read_again'],
-    "floors": {"TestBounds/preload": 0.15, "TestBounds/single_entry": 0.1, "TestBounds/through_engine": 0.2,
-               "TestBounds/live_consumers": 0.07, "TestBounds/late_consumers": 0.04,
+                         'TestBounds/grpc/json/entries_over_64k_read_again',
+                         'TestBounds/json/source_file/read_again', 'TestBounds/json/source_inline/read_again', 'TestBounds/json/source_stdin/read_again', 'TestBounds/json/source_reader_strings/read_again', 'TestBounds/json/source_reader_file/read_again', 'TestBounds/json/source_string/read_again',
+                         'TestBounds/json/source_inline/read_again_passes_only', 'TestBounds/json/source_inline/read_again_to_limit', 'TestBounds/json/source_inline/read_again_unbounded'],
+    "floors": {"TestBounds/preload": 0.15, "TestBounds/single_entry": 0.1, "TestBounds/through_engine": 0.18,
+               "TestBounds/live_consumers": 0.065, "TestBounds/late_consumers": 0.04,
                "TestBounds/provider_failed_with_consumers_acquiring": 0.012,
-               "TestBounds/chosencases_subset": 0.12, "TestBounds/chosencases_proper_subset": 0.06,
-               "TestBounds/chosencases_match_nothing": 0.06, "TestBounds/cancelled_while_scanning": 0.04,
-               "TestBounds/jsonline/cancelled_while_scanning": 0.004, "TestBounds/jsonarray/cancelled_while_scanning": 0.004,
-               "TestBounds/maxammosize_set": 0.2, "TestBounds/entries_1k_to_48k": 0.085,
-               "TestBounds/entries_over_64k": 0.06, "TestBounds/entries_over_64k_read_again": 0.037,
-               "TestBounds/grpc/json/entries_over_64k_read_again": 0.01, "TestBounds/jsonline/entries_over_64k_read_again": 0.011,
-               "TestBounds/jsonarray/entries_over_64k_read_again": 0.011},
+               "TestBounds/chosencases_subset": 0.1, "TestBounds/chosencases_proper_subset": 0.06,
+               "TestBounds/chosencases_match_nothing": 0.05, "TestBounds/cancelled_while_scanning": 0.04,
+               "TestBounds/jsonline/cancelled_while_scanning": 0.0033, "TestBounds/jsonarray/cancelled_while_scanning": 0.0033,
+               "TestBounds/maxammosize_set": 0.17, "TestBounds/entries_1k_to_48k": 0.07,
+               "TestBounds/entries_over_64k": 0.05, "TestBounds/entries_over_64k_read_again": 0.03,
+               "TestBounds/grpc/json/entries_over_64k_read_again": 0.0085, "TestBounds/jsonline/entries_over_64k_read_again": 0.009,
+               "TestBounds/jsonarray/entries_over_64k_read_again": 0.009,
+               "TestBounds/json/source_file/read_again": 0.006, "TestBounds/json/source_inline/read_again": 0.006, "TestBounds/json/source_stdin/read_again": 0.006, "TestBounds/json/source_reader_strings/read_again": 0.006, "TestBounds/json/source_reader_file/read_again": 0.006, "TestBounds/json/source_string/read_again": 0.006,
+               "TestBounds/json/source_inline/read_again_passes_only": 0.002, "TestBounds/json/source_inline/read_again_to_limit": 0.003, "TestBounds/json/source_inline/read_again_unbounded": 0.003},
     "manifest": {
         "technique": "property-based testing (rapid) over the provider-kind x bound matrix with a counting oracle and a hang watchdog",
         "text": ("For every generated cell the provider must deliver exactly min(limit, passes*entries) ammo (non-zero bounds only), then "
